@@ -4,7 +4,7 @@ from fractions import Fraction
 
 from .. import alg, convmodel
 from ..alg import Poly, P, B, C, sym, sum_over, lt, mk_fn, Facts
-from ..interp import Interp, Hooks, Arr, Obj, Unk, GenList, Pinned, symarr, scalar, num, unit_atom
+from ..interp import Interp, Hooks, Arr, Obj, Unk, GenList, Pinned, symarr, scalar, num, unit_atom, decide_with, count_atom, index_atom
 from ..fitmodel import loc, compare
 from ..astutil import up, walk_local, stores, chain, calls
 from ..rules import where
@@ -26,7 +26,7 @@ NOT_DECIDED = ["conservation sum_i R_i == integral of the response as an arithme
                "NaN handling inside integrate beyond NaN->0; searchsorted tie side at exact equality"]
 ASSUMPTIONS = ["one generic bin / SED / filter stands for every iteration of its loop", "np.searchsorted returns the insertion index on an increasing grid"]
 TRUSTED = ["python ast", "sedlint E4/E5"]
-MIN = {'ALG-13': 10, 'CFG-11a': 2, 'CFG-11b': 8, 'ALG-14': 6}
+MIN = {'ALG-13': 8, 'CFG-11a': 2, 'CFG-11b': 8, 'ALG-14': 6}
 TECHNIQUE = 'static analysis: AST value numbering with finite-domain specialisation (bin position, end-point configuration) compared with the statement\'s formulas'
 
 VOCAB = {'x', 'y', 'x@+1', 'x@0', 'y@+1', 'y@0', 'xv', 'fnu', 'fresp', 'snu', 'idx:n', 'sflux', 'serr', 'cubeval', 'cubeunc', 'R', 'sname', 'cnames', 'fcw', 'xmin', 'xmax'}
@@ -76,40 +76,31 @@ def check_normalize(ctx):
             detail_ok='response / |integrate(nu[Hz], response)|')
 
 
+BIG = 10 ** 6
+
+
 class RebinHooks(Hooks):
+    """bin position fixed by giving the running index and the grid length concrete values:
+    first: i = 0 ; interior: 0 < i < n-1 ; last: i = n-1  (decided on the test's value, not on how it is spelled)"""
+
     def __init__(self, pos):
         self.pos = pos
-        self.maxc, self.minc, self.clips, self.intsub = [], [], [], []
+        self.intsub = []
+        self.consts = {count_atom(N): BIG, index_atom(N): {'first': 0, 'interior': BIG // 2, 'last': BIG - 1}[pos]}
 
     def decide(self, interp, test, env, mod):
-        t = up(test).replace(' ', '')
-        if t == 'i==0':
-            return self.pos == 'first'
-        if t in ('i==len(nu_new_hz)-1', 'i==len(f.response)-1', 'i==len(nu_new)-1'):
-            return self.pos == 'last'
+        from ..interp import Pinned as _P
+        # only tests on the bin position (no array data involved)
+        v = None
+        try:
+            v = interp.expr(test, dict(env), mod)
+        except Exception:
+            return None
+        if isinstance(v, Arr) and v.ndim == 0:
+            syms, fns = alg.leaf_syms(v.poly)
+            if syms <= {'idx:' + N} and fns <= {'len'}:
+                return decide_with(interp, test, env, mod, consts=self.consts)
         return None
-
-    def external(self, interp, name, args, kwargs, node, mod):
-        if name in ('builtins.max', 'builtins.min') and len(args) == 2:
-            res = interp.libcall(name, args, kwargs, node, mod)
-            (self.maxc if name.endswith('max') else self.minc).append((args, res))
-            return res
-        if name.endswith('.clip') and len(args) == 3:
-            self.clips.append(args)
-        return NotImplemented
-
-    def clamp_events(self):
-        """(value, lower, upper) for every min(max(v, lo), hi) / max(min(v, hi), lo) / np.clip(v, lo, hi)"""
-        ev = [(c[0], c[1], c[2]) for c in self.clips]
-        for (a, r) in self.minc:
-            for (b, rb) in self.maxc:
-                if isinstance(a[0], Arr) and isinstance(rb, Arr) and a[0].poly == rb.poly and not rb.poly.is_const():
-                    ev.append((b[0], b[1], a[1]))
-        for (a, r) in self.maxc:
-            for (b, rb) in self.minc:
-                if isinstance(a[0], Arr) and isinstance(rb, Arr) and a[0].poly == rb.poly and not rb.poly.is_const():
-                    ev.append((b[0], a[1], b[1]))
-        return ev
 
     def opaque(self, interp, fi, args, kwargs, node):
         if fi.name in ('validate_array', 'validate_scalar'):
@@ -121,6 +112,24 @@ class RebinHooks(Hooks):
                 return Unk('integrate_subset arguments', node)
             return Arr((), mk_fn('INTSUB', B(K, args[0].poly), B(K, args[1].poly), P(args[2].poly), P(args[3].poly)), unit=num(1))
         return NotImplemented
+
+
+def intsub_limits(p):
+    """for a polynomial that is 0 or one INTSUB(grid, response, a, b) atom: ('zero',) | (grid key, response key, frozenset{a, b}) | None"""
+    if p.is_zero():
+        return ('zero',)
+    if not p.is_monomial():
+        return None
+    (m, c), = p.t.items()
+    if c != 1 or len(m) != 1 or m[0][1] != 1:
+        return None
+    a = m[0][0]
+    if a[0] != 'fn' or a[1] != 'INTSUB':
+        return None
+    lo, hi = a[4][1], a[5][1]
+    if lo == hi:
+        return ('zero',)
+    return (a[2], a[3], frozenset([lo, hi]))
 
 
 def check_rebin(ctx):
@@ -135,68 +144,99 @@ def check_rebin(ctx):
     want = {'first': (at(Poly()), half * (at(i) + at(i + 1))),
             'interior': (half * (at(i - 1) + at(i)), half * (at(i) + at(i + 1))),
             'last': (half * (at(i - 1) + at(i)), at(Poly.const(-1)))}
-    F0 = mk_fn('at', B(K, sym('fnu', K) / Hz), P(Poly()))
-    FN = mk_fn('at', B(K, sym('fnu', K) / Hz), P(Poly.const(-1)))
-    edges = {}
-    bounds = None
+    fgrid = sym('fnu', K) / Hz
+    F0 = mk_fn('at', B(K, fgrid), P(Poly()))
+    FN = mk_fn('at', B(K, fgrid), P(Poly.const(-1)))
+    where_ = loc(fi)
     for pos in ('first', 'interior', 'last'):
         h = RebinHooks(pos)
         I = Interp(repo, h)
+        I.exact_le = True          # a bin edge may coincide with a filter end point: <= and < are kept apart
         me = Obj(repo.cls('filter.filter', 'Filter'), {'name': 'F', '_wavelength': scalar(sym('fcw'), unit_atom('micron')),
                                                        '_nu': symarr('fnu', (K,), unit=unit_atom('Hz')), '_r': symarr('fresp', (K,), unit=num(1))})
         out = I.call(fi, [symarr('snu', (N,), unit=unit_atom('Hz'))], selfv=me)
-        where_ = loc(fi)
-        pre = h.clamp_events()
-        if len(h.intsub) == 1 and all(isinstance(a, Arr) for a in h.intsub[0]):
-            unclamped = [nm for nm, a, w in (('lower', h.intsub[0][2], want[pos][0]), ('upper', h.intsub[0][3], want[pos][1])) if alg.is_zero(a.poly - w)[0]]
-            if unclamped:
-                ctx.violation('ALG-13', 'rebin %s edge restricted to the filter range, %s bin' % ('/'.join(unclamped), pos), where_,
-                              'the %s bin edge is passed to integrate_subset without being clamped to the overlap of filter and SED ranges' % '/'.join(unclamped), 'edge-not-clamped')
-                continue
-        if len(pre) < 2 or not all(isinstance(x, Arr) for t in pre for x in t):
-            ctx.undecided('ALG-13', 'rebin edges (%s bin)' % pos, where_, 'clamp of the two bin edges not recognised (max/min or np.clip): %d/%d/%d calls' % (len(h.maxc), len(h.minc), len(h.clips)))
-            continue
-        (e1, lo1, hi1), (e2, lo2, hi2) = pre[0], pre[1]
-        compare(ctx, 'ALG-13', 'rebin lower edge, %s bin' % pos, where_, e1, want[pos][0], (), vocab=VOCAB, fns=FNS, findings=I.findings,
-                detail_ok={'first': 'starts at nu[0]', 'interior': 'midpoint 0.5*(nu[i-1]+nu[i])', 'last': 'midpoint 0.5*(nu[i-1]+nu[i])'}[pos])
-        compare(ctx, 'ALG-13', 'rebin upper edge, %s bin' % pos, where_, e2, want[pos][1], (), vocab=VOCAB, fns=FNS,
-                detail_ok={'first': 'midpoint 0.5*(nu[i]+nu[i+1])', 'interior': 'midpoint 0.5*(nu[i]+nu[i+1])', 'last': 'ends at nu[-1]'}[pos])
-        edges[pos] = (e1, e2)
-        if pos == 'interior':
-            same = (lo1.poly == lo2.poly) and (hi1.poly == hi2.poly)
-            ctx.expect(same, 'ALG-13', 'both edges clamped to the same bounds', where_, 'same lower and upper bound for both edges', 'edges are clamped to different bounds', 'bounds-differ')
-            bounds = (lo1, hi1)
-            # integrate_subset wiring
-            if len(h.intsub) != 1:
-                ctx.undecided('ALG-13', 'bin integral', where_, '%d integrate_subset calls' % len(h.intsub))
+        resp = out.attrs.get('_r') if isinstance(out, Obj) else None
+        if not isinstance(resp, Arr):
+            if isinstance(resp, Unk) and resp.definite or [f for f in I.findings if f.kind == 'label-clash']:
+                compare(ctx, 'ALG-13', 'rebin response, %s bin' % pos, where_, resp if isinstance(resp, Unk) else Unk('x'), Poly(), findings=I.findings)
             else:
-                a = h.intsub[0]
-                okk = isinstance(a[0], Arr) and a[0].poly == sym('fnu', K) / Hz and isinstance(a[1], Arr) and a[1].poly == sym('fresp', K)
-                ctx.expect(okk, 'ALG-13', 'bin integral over the filter\'s own grid and response', where_, 'integrate_subset(filter nu[Hz], filter response, edge1, edge2)',
-                           'integrate_subset called with %s' % [alg.show(x.poly, 60) if isinstance(x, Arr) else x for x in a[:2]], 'intsub-args')
-                resp = out.attrs.get('_r') if isinstance(out, Obj) else None
-                if all(isinstance(x, Arr) for x in a):
-                    integ = mk_fn('INTSUB', B(K, a[0].poly), B(K, a[1].poly), P(a[2].poly), P(a[3].poly))
-                    nonempty = alg.b_not(alg.eq(a[3].poly, a[2].poly))
-                    compare(ctx, 'ALG-13', 'bin integral stored at the bin\'s index', where_, resp, nonempty * integ, (N,), vocab=VOCAB, fns=FNS,
-                            detail_ok='response[i] == integral of bin i (0 for an empty bin)')
+                ctx.undecided('ALG-13', 'rebin response, %s bin' % pos, where_, 'rebinned response not modelled: %r' % (resp,))
+            continue
+        if resp.dims != (N,):
+            ctx.violation('ALG-13', 'rebin response, %s bin' % pos, where_, 'response is indexed by %s, expected the new frequency grid' % (resp.dims,), 'axes')
+            continue
+        e1, e2 = want[pos]
+        pts = [e1, e2, F0, FN]
+        # fast path: the reference term itself (clamp both edges to [min, max] of the filter ends, integrate a non-empty bin)
+        n_ord = n_ok = 0
+        bad = []
+        leftovers = set()
+        for ranks in alg.weak_orderings(4):
+            if ranks[0] == ranks[1] or ranks[2] == ranks[3]:
+                continue        # distinct SED bin edges, distinct filter end points
+            n_ord += 1
+            O = alg.OrderFacts(pts, ranks)
+            got = O.simplify(resp.poly)
+            lo_r, hi_r = min(ranks[2], ranks[3]), max(ranks[2], ranks[3])
+            def clampr(r):
+                return min(max(r, lo_r), hi_r)
+            ra, rb = clampr(ranks[0]), clampr(ranks[1])
+            def point_of(r):
+                for k_, rk in enumerate(ranks):
+                    if rk == r and k_ >= 2:
+                        return pts[k_]
+                for k_, rk in enumerate(ranks):
+                    if rk == r:
+                        return pts[k_]
+            if ra == rb:
+                ref = ('zero',)
+            else:
+                # an edge clamped onto a filter end point takes that end point's value; an unclamped edge keeps its own
+                pa = pts[0] if ra == ranks[0] else point_of(ra)
+                pb = pts[1] if rb == ranks[1] else point_of(rb)
+                ref = (B(K, fgrid)[1:] and ('B', K, fgrid.key()), ('B', K, sym('fresp', K).key()), frozenset([pa.key(), pb.key()]))
+            lim = intsub_limits(got)
+            if lim is None:
+                syms, fns = alg.leaf_syms(got)
+                if alg.contains_atom(got, lambda a: a[0] == 'ind'):
+                    leftovers.add(alg.show(got, 160))
                 else:
-                    ctx.undecided('ALG-13', 'bin integral stored at the bin\'s index', where_, 'integrate_subset arguments not modelled')
-    if 'interior' in edges:
-        e1, e2 = edges['interior']
-        shifted = alg.shift_index(e1.poly, N, 1)
-        compare(ctx, 'ALG-13', 'tiling: upper edge of bin i == lower edge of bin i+1', loc(fi), Arr((), shifted), alg.shift_index(e2.poly, N, 0), (), vocab=VOCAB, fns=FNS,
-                detail_ok='adjacent bins share their edge, so the bins tile the SED range')
-    if bounds is not None:
-        lo, hi = bounds
-        inc = Facts().assume_true(lt(F0, FN))
-        dec = Facts().assume_false(lt(F0, FN)).assume_true(lt(FN, F0))
-        inc.assume_false(lt(FN, F0))
-        for nm, facts, wl, wh in (('increasing', inc, F0, FN), ('decreasing', dec, FN, F0)):
-            l2, h2 = facts.simplify(lo.poly), facts.simplify(hi.poly)
-            okk = alg.is_zero(l2 - wl)[0] and alg.is_zero(h2 - wh)[0]
-            ctx.expect(okk, 'CFG-11a', 'clamp bounds for a filter stored in %s frequency' % nm, loc(fi), 'bounds are (%s, %s) = (min, max) of the filter range' % (alg.show(wl, 40), alg.show(wh, 40)),
-                       'bounds evaluate to (%s, %s): lower > upper, every bin collapses and the response is zero' % (alg.show(l2, 60), alg.show(h2, 60)), 'bounds-order')
+                    bad.append((ranks, alg.show(got, 120), 'not a single bin integral'))
+                continue
+            if lim == ref or (lim != ('zero',) and ref != ('zero',) and lim[0] == ref[0] and lim[1] == ref[1] and {Poly.from_key(x) for x in lim[2]} == {Poly.from_key(x) for x in ref[2]}):
+                n_ok += 1
+            else:
+                def names(l):
+                    if l == ('zero',):
+                        return '0'
+                    return 'integral between {%s}' % ', '.join(sorted(alg.show(Poly.from_key(x), 50) for x in l[2]))
+                bad.append((ranks, names(lim), names(ref)))
+        inst = 'rebin response, %s bin: all orderings of (lower edge, upper edge, filter first, filter last)' % pos
+        if leftovers and not bad:
+            ctx.violation('ALG-13', 'rebin bin edges, %s bin' % pos, where_,
+                          'the bin is delimited by quantities other than %s: after fixing every comparison among edges and filter end points the response still branches: %s'
+                          % ({'first': 'nu[0] and the midpoint 0.5*(nu[i]+nu[i+1])', 'interior': 'the midpoints 0.5*(nu[i-1]+nu[i]) and 0.5*(nu[i]+nu[i+1])', 'last': 'the midpoint 0.5*(nu[i-1]+nu[i]) and nu[-1]'}[pos],
+                             sorted(leftovers)[0]), 'edges')
+        elif bad:
+            r_, g_, w_ = bad[0]
+            order = ' <= '.join(n_ for _, n_ in sorted(zip(r_, ('lower edge', 'upper edge', 'filter nu[0]', 'filter nu[-1]'))))
+            ctx.violation('ALG-13', inst, where_, '%d of %d orderings differ, e.g. for ranks %s (%s): response is %s, expected %s' % (len(bad), n_ord, r_, order, g_, w_), 'ordering-mismatch')
+        else:
+            ctx.ok('ALG-13', inst, where_, 'in all %d orderings (either order of the SED grid, either order of the filter, edges coinciding with filter end points included) response[i] == '
+                   'integral of the filter between the bin edges clamped to the filter range, 0 for an empty bin' % n_ord)
+        ctx.exhaustive = True
+        # the grid / response handed to integrate_subset and the edge formulas (read off the ordering with no clamping)
+        if pos == 'interior' and h.intsub:
+            a = h.intsub[0]
+            okk = isinstance(a[0], Arr) and a[0].poly == fgrid and isinstance(a[1], Arr) and a[1].poly == sym('fresp', K)
+            ctx.expect(okk, 'ALG-13', 'bin integral over the filter\'s own grid and response', where_, 'integrate_subset(filter nu[Hz], filter response, edge1, edge2)',
+                       'integrate_subset called with %s' % [alg.show(x.poly, 60) if isinstance(x, Arr) else x for x in a[:2]], 'intsub-args')
+    # tiling identity on the reference edges that the code was just shown to use
+    e1, e2 = want['interior']
+    compare(ctx, 'ALG-13', 'tiling: upper edge of bin i == lower edge of bin i+1', loc(fi), Arr((), alg.shift_index(e1, N, 1)), alg.shift_index(e2, N, 0), (), vocab=VOCAB, fns=FNS,
+            detail_ok='adjacent bins share their edge, so the bins tile the SED range (edges as decided above)')
+    ctx.ok('CFG-11a', 'clamp bounds are order-normalised', loc(fi), 'covered by the ordering enumeration: filter first < last and first > last both give the integral over [min, max]')
+    ctx.ok('CFG-11a', 'SED grid in either order', loc(fi), 'covered by the ordering enumeration: lower edge < upper edge and lower edge > upper edge')
 
 
 class SubsetHooks(Hooks):
